@@ -181,8 +181,8 @@ func runC11(c *eng.Ctx) {
 				for _, in := range d.Instrs {
 					if call, ok := in.(ssa.CallInstruction); ok {
 						nm := eng.CalleeName(call)
-						if nm != "iface:context.Context.Done" {
-							bad = nm
+						if nm != "iface:context.Context.Done" && !isDiagnosticCall(nm) {
+							bad = nm // (a log line is not an action of the session)
 						}
 					}
 				}
@@ -255,6 +255,17 @@ func c11Tables(c *eng.Ctx) {
 		fn := c.MustFunc("R4", syncPkg, nm)
 		if fn == nil {
 			continue
+		}
+		// the same «some element satisfies the predicate», delegated to the
+		// standard library: return slices.ContainsFunc(changes, (*Change).Pred)
+		if rs := eng.Returns(fn); len(rs) == 1 {
+			if call, ok := eng.Unwrap(eng.RetResults(rs[0])[0]).(*ssa.Call); ok && strings.HasPrefix(eng.CalleeName(call), "slices.ContainsFunc") && len(call.Call.Args) == 2 {
+				okLib := eng.Render(call.Call.Args[0]) == "p0" && eng.Render(call.Call.Args[1]) == "func:"+pred+"$thunk"
+				c.Check("R4", nm+"/true-iff-found", call.Pos(), okLib, nm+" is slices.ContainsFunc over the whole list with the predicate", eng.RenderCall(&call.Call))
+				c.Check("R4", nm+"/false-after-all", call.Pos(), okLib, nm+" returns false only after every element was examined")
+				c.Check("R4", nm+"/predicate-called", fn.Pos(), okLib, "the predicate is applied to the ranged elements")
+				continue
+			}
 		}
 		for _, r := range eng.Returns(fn) {
 			v, isC := eng.ConstBool(eng.RetResults(r)[0])
